@@ -47,4 +47,24 @@ def HeightOk (s : St) (h : Int) : Prop := 0 ≤ h ∧ 2 ^ h.toNat ≤ max 1 s.ev
 
 instance (s : St) (h : Int) : Decidable (HeightOk s h) := by unfold HeightOk; infer_instance
 
+/-! ### What the property admits (the relation the monitor decides, used by `Theorems/C10.lean`) -/
+
+/-- Answer `o` to `op` in abstract state `s` is one the property admits: the deterministic answer, or
+for `Height` any value within the bound. -/
+def Admits (s : St) (op : Op) (o : Out) : Prop :=
+  match (step s op).2 with
+  | some o' => o = o'
+  | none => ∃ h : Int, o = .int h ∧ HeightOk s h
+
+/-- abstract state after a history -/
+def exec (s : St) : List Op → St
+  | [] => s
+  | op :: ops => exec (step s op).1 ops
+
+/-- every answer of a whole history is admitted -/
+def RunAdmits (s : St) : List Op → List Out → Prop
+  | [], [] => True
+  | op :: ops, o :: os => Admits s op o ∧ RunAdmits (step s op).1 ops os
+  | _, _ => False
+
 end GoguVerif.Spec.C10
